@@ -300,9 +300,19 @@ def strict_name(buf, el):
     typ, tl, vs, ve, _ = el
     if typ != NAME:
         raise T.Malformed('not a name')
+    if T.CLAMP:
+        # (clamping emulation of the one known finding) an element READ AS A NAME is never cut short by the library
+        _t, p_, _m = T.read_num(buf, tl, len(buf))
+        ln_, p2_, _m = T.read_num(buf, p_, len(buf))
+        if p2_ + ln_ != ve:
+            raise T.Malformed('a Name that overruns its container is refused, not clamped')
     comps = []
-    for c in T.walk(buf, vs, ve):
-        comps.append(bytes(buf[c[1]:c[3]]))
+    T.NO_CLAMP_HERE = True      # the clamping emulation of the one known finding does not extend to name components
+    try:
+        for c in T.walk(buf, vs, ve):
+            comps.append(bytes(buf[c[1]:c[3]]))
+    finally:
+        T.NO_CLAMP_HERE = False
     return comps
 
 
